@@ -47,6 +47,20 @@ DedupBy(s, K(_), acc) ==
   ELSE IF acc # <<>> /\ K(acc[Len(acc)]) = K(s[1]) THEN DedupBy(Tail(s), K, acc)
   ELSE DedupBy(Tail(s), K, Append(acc, s[1]))
 
+\* dedup_by with the order-sensitive predicate later.val <= kept.val, and the argument pairs it is called with
+RECURSIVE DedupRel(_, _)
+DedupRel(s, acc) ==
+  IF s = <<>> THEN acc
+  ELSE IF acc # <<>> /\ s[1][2] <= acc[Len(acc)][2] THEN DedupRel(Tail(s), acc)
+  ELSE DedupRel(Tail(s), Append(acc, s[1]))
+RECURSIVE DedupArgs(_, _, _)
+DedupArgs(s, acc, out) ==
+  IF s = <<>> THEN out
+  ELSE IF acc = <<>> THEN DedupArgs(Tail(s), <<s[1]>>, out)
+  ELSE LET pair == <<s[1][1], acc[Len(acc)][1]>> IN
+       IF s[1][2] <= acc[Len(acc)][2] THEN DedupArgs(Tail(s), acc, Append(out, pair))
+       ELSE DedupArgs(Tail(s), Append(acc, s[1]), Append(out, pair))
+
 Res(V, B) == [panics |-> FALSE, V |-> V, B |-> B, ret |-> <<>>, drops |-> {}, leaks |-> {}, err |-> FALSE]
 Panic(V, B) == [Res(V, B) EXCEPT !.panics = TRUE]
 
@@ -76,7 +90,7 @@ Sem(e, V, B) ==
          [Res([Grow(V, v) EXCEPT ![v + 1] = NewSeq(e.vals)], B) EXCEPT !.drops = IF has THEN IdsOf(s) ELSE {}]
     [] ~has /\ e.op \in {"push", "pop", "insert", "remove", "swap_remove", "truncate", "clear", "resize",
                          "extend_from_slice", "extend", "append", "split_off", "drain", "splice", "retain",
-                         "drain_filter", "dedup", "dedup_by_key", "reserve", "reserve_exact", "try_reserve",
+                         "drain_filter", "dedup", "dedup_by_key", "dedup_by", "reserve", "reserve_exact", "try_reserve",
                          "try_reserve_exact", "shrink_to_fit", "clone", "into_iter", "into_bump_slice",
                          "into_boxed_slice", "index", "drop_vec"} ->
          \* the driver does nothing when the slot is empty (except that it drops what it built for the call)
@@ -148,6 +162,11 @@ Sem(e, V, B) ==
          [Res(SetV(d), B) EXCEPT !.drops = IdsOf(s) \ IdsOf(d)]
     [] e.op = "dedup_by_key" ->
          LET d == DedupBy(s, LAMBDA x: x[2] \div e.a, <<>>) IN
+         [Res(SetV(d), B) EXCEPT !.drops = IdsOf(s) \ IdsOf(d)]
+    [] e.op = "dedup_by" ->
+         \* same_bucket(a, b): a is the later element, b the one kept before it; true removes a.
+         \* The driver's predicate is a.val <= b.val
+         LET d == DedupRel(s, <<>>) IN
          [Res(SetV(d), B) EXCEPT !.drops = IdsOf(s) \ IdsOf(d)]
     [] e.op \in {"reserve", "reserve_exact"} ->
          IF e.a < 0 \/ e.a >= 2147483647 THEN Panic(V, B) ELSE Res(V, B)        \* capacity overflow
